@@ -31,10 +31,16 @@ structure Intent where
   /-- the target is in a more private network (a PNA preflight is required) -/
   pna : Bool
 
+/-- Insert into a sorted list unless already present. -/
+def insertUnique (x : Bytes) (l : List Bytes) : List Bytes :=
+  if l.contains x then l else insertSorted Bytes.lt x l
+
 /-- Byte-lowercased, sorted, de-duplicated unsafe header names
-(https://fetch.spec.whatwg.org/#cors-unsafe-request-header-names). -/
+(https://fetch.spec.whatwg.org/#cors-unsafe-request-header-names).  `unsafeNames_spec`
+(Proofs/BrowserLists.lean) shows that this is *the* strictly increasing list whose members are
+the byte-lowercased names, whatever the sorting algorithm. -/
 def unsafeNames (i : Intent) : List Bytes :=
-  (sortBy Bytes.lt (i.headerNames.map Bytes.lower)).eraseDups
+  (i.headerNames.map Bytes.lower).foldr insertUnique []
 
 def methodN (i : Intent) : Bytes := normalizeMethod i.method
 
